@@ -132,6 +132,17 @@ def decision_table_rules(ctx):
            'KeepAlive state with counter > 1 and nothing to report ends in row %s without counting the keep-alive counter down')
     if not due or not cnt:
         r.lost('keep-alive-cadence', 'paths', 'keep-alive rows (#15 / #16) not found among the enumerated paths')
+    # (B0) the first keep-alive: Normal, nothing sent yet, request queued, nothing to report -> keep-alive after the first interval
+    first = [x for x in rows if x['inputs'].get('state') == ('is', 'Normal') and x['inputs'].get('timer_expired') is True and x['inputs'].get('req_queued') is True and
+             x['inputs'].get('message_sent') is False and x['inputs'].get('lifetime_is_1') is not True and
+             not (x['inputs'].get('publishing_enabled') is True and x['inputs'].get('notifications_available') is True) and
+             (x['inputs'].get('publishing_enabled') is False or x['inputs'].get('notifications_available') is False)]
+    bad = [x for x in first if x['action'] != 'ReturnKeepAlive']
+    report('keep-alive-cadence', 'first', bad,
+           'Normal, first interval elapsed, request queued, nothing sent yet and nothing to report: %d paths all send the first keep-alive' % len(first),
+           'the first publishing interval of an idle subscription ends in row %s without a keep-alive')
+    if not first:
+        r.lost('keep-alive-cadence', 'first:paths', 'row #7 paths not found')
     # (C) a timer expiry that consumes no publish request counts the lifetime down (start_publishing_timer decrements it)
     tm = [x for x in rows if x['inputs'].get('timer_expired') is True and x['inputs'].get('state', ('not',))[0] == 'is' and x['inputs']['state'][1] in ('Normal', 'Late', 'KeepAlive')
           and x['action'] == 'None' and x['row'] not in ('None0', 'Closed27')]
